@@ -63,11 +63,10 @@ Definition o_gerr (e : gerr) : otm :=
 Definition run_case (tb : list str) (c : case) : otm :=
   let g := option_map (conv_groups tb) (c_groups c) in
   let k := option_map (conv_kerning tb) (c_kerning c) in
-  let interned := map (nm tb) (c_interned c) in
   let glyphs := map (nm tb) (c_glyphs c) in
   let v3 := (c_ver c =? 3) in
   let load :=
-    match load_gk v3 g k interned with
+    match load_gk v3 g k glyphs with
     | Ok (g', k') => OL [ON 0; o_groups g'; o_kerning k']
     | Err (LInvalidGroups e) => OL [ON 1; o_gerr e]
     | Err (LUpconversionFailure e) => OL [ON 2; o_gerr e]
@@ -82,24 +81,7 @@ Definition run_case (tb : list str) (c : case) : otm :=
                  | Panic s => OL [ON 9; ON s]
                  end
     end in
-  let flags :=
-    match g with
-    | Some g0 =>
-        match validate_groups g0 with
-        | Ok _ =>
-            if v3 then (false, false)
-            else
-              let k0 := kern_or_empty k in
-              (negb (same_candsb g0 k0 interned glyphs),
-               match upconvert_tables g0 k0 interned with
-               | Ok (_, r1, r2) => negb (no_pair_collision r1 r2 k0)
-               | _ => false
-               end)
-        | _ => (false, false)
-        end
-    | None => (false, false)
-    end in
-  OL [load; save; ON (if fst flags then 1 else 0); ON (if snd flags then 1 else 0)].
+  OL [load; save].
 
 (** [(global index, case, expected)]: indices and model outcomes of the cases on which model
     and implementation differ *)
@@ -188,15 +170,7 @@ Definition exh_run (uni : list str) (mvs : N) (idx : N) : otm :=
     | Err e => OL [ON 1; o_gerr e]
     | Panic s => OL [ON 9; ON s]
     end in
-  let pc :=
-    match validate_groups g with
-    | Ok _ => match upconvert_tables g k glyphs with
-              | Ok (_, r1, r2) => negb (no_pair_collision r1 r2 k)
-              | _ => false
-              end
-    | _ => false
-    end in
-  OL [load; save; ON 0; ON (if pc then 1 else 0)].
+  OL [load; save].
 
 (** cases [first], [first+stride], ... of universe [u]; [hs] the implementation's hashes *)
 Fixpoint exh_mism_aux (uni : list str) (mvs idx stride : N) (hs : list int) : list (N * otm) :=
